@@ -689,6 +689,20 @@ def tiebreak (now : Nat) (auths : List Wire.Rec) (reg : Registry) (q : Wire.Ques
         | .lt => { reg with probing := aset q.name { p with start := now + 1000, next := now + 1000 } reg.probing }
         | _ => reg
 
+/-- `probe.next_send != next_send` around the call of `tiebreaking`: was the probe postponed? -/
+def postponedTo (now : Nat) (auths : List Wire.Rec) (reg : Registry) (q : Wire.Question) : Option Nat :=
+  match alookup q.name reg.probing, alookup q.name (tiebreak now auths reg q).probing with
+  | some p, some p' => if p'.next != p.next then some p'.next else none
+  | _, _ => none
+
+/-- the timers `handle_query` arms while it walks the questions: one for every probe that a
+    lost tiebreak postponed (repair of D34) -/
+def tiebreakTimers (now : Nat) (auths : List Wire.Rec) : Registry → List Wire.Question → List Nat
+  | _, [] => []
+  | reg, q :: qs =>
+    (match postponedTo now auths reg q with | some t => [t] | none => []) ++
+      tiebreakTimers now auths (tiebreak now auths reg q) qs
+
 def clearFlush (r : RR) : RR := { r with flush := false }
 
 /-- the response packet of `handle_query`; legacy unicast echoes the id and the questions
@@ -706,7 +720,8 @@ def handleQuery (s : State) (now : Nat) (p : RxPkt) (i : MyIntf) : State × List
   | some reg =>
     let resp := p.msg.questions.foldl (answerQuestion p.msg.answers s.services i reg p.srcV4) {}
     let reg' := p.msg.questions.foldl (tiebreak now p.msg.authorities) reg
-    let s' := s.setRegistry p.ifIdx reg'
+    let s' : State := { (s.setRegistry p.ifIdx reg') with
+      timers := s.timers ++ tiebreakTimers now p.msg.authorities reg p.msg.questions }
     if resp.answers.isEmpty then (s', [])
     else
       (s',
